@@ -25,7 +25,7 @@ type ctx = { mutable opidx : int; impl : (int, string list) Hashtbl.t (* opidx -
 
 let spec ctx name ok detail = Util.spec ctx.opidx name ok detail
 
-let impl_obs ctx = Hashtbl.find_opt ctx.impl ctx.opidx
+let impl_obs ctx = match List.rev (Hashtbl.find_all ctx.impl ctx.opidx) with x :: _ -> Some x | [] -> None
 
 let run_op ctx (toks : string list) =
   let mark = Buffer.length out in
